@@ -62,6 +62,7 @@ fn new_tr<'a>(idx: &'a Index, reg: &'a Registry, cur: &'a FnEntry) -> Tr<'a> {
         betas: Vec::new(),
         mut_ref_params: Vec::new(),
         ptr_alias: HashMap::new(),
+        pattern_generics: Vec::new(),
     }
 }
 
@@ -144,6 +145,38 @@ fn translate_const(idx: &Index, reg: &Registry, t: &Target) -> R<String> {
     tr.resolve_placeholders(&text)
 }
 
+/// generic parameters bounded by konst's `Pattern` / `BytesPattern` traits
+pub fn pattern_generics(g: &syn::Generics) -> Vec<String> {
+    fn is_pat_bound(b: &syn::TypeParamBound) -> bool {
+        if let syn::TypeParamBound::Trait(t) = b {
+            if let Some(s) = t.path.segments.last() {
+                return s.ident == "Pattern" || s.ident == "BytesPattern";
+            }
+        }
+        false
+    }
+    let mut v = Vec::new();
+    for p in g.type_params() {
+        if p.bounds.iter().any(is_pat_bound) {
+            v.push(p.ident.to_string());
+        }
+    }
+    if let Some(w) = &g.where_clause {
+        for pred in &w.predicates {
+            if let syn::WherePredicate::Type(pt) = pred {
+                if pt.bounds.iter().any(is_pat_bound) {
+                    if let syn::Type::Path(tp) = &pt.bounded_ty {
+                        if let Some(id) = tp.path.get_ident() {
+                            v.push(id.to_string());
+                        }
+                    }
+                }
+            }
+        }
+    }
+    v
+}
+
 fn translate_fn(idx: &Index, reg: &Registry, t: &Target, texts: &BTreeMap<String, Vec<String>>) -> R<String> {
     let cands = idx.find_fn(&t.rust_path);
     if cands.is_empty() {
@@ -159,6 +192,12 @@ fn translate_fn(idx: &Index, reg: &Registry, t: &Target, texts: &BTreeMap<String
     let mut tr = new_tr(idx, reg, f);
     tr.generics = f.sig.generics.type_params().map(|p| p.ident.to_string()).collect();
     tr.const_generics = f.sig.generics.const_params().map(|p| p.ident.to_string()).collect();
+    tr.pattern_generics = pattern_generics(&f.sig.generics);
+    tr.generics.retain(|g| !tr.pattern_generics.contains(g));
+    if !tr.pattern_generics.is_empty() {
+        // the `const N` of `BytesPattern<N>` only exists for the trait dispatch
+        tr.const_generics.retain(|g| g != "N");
+    }
 
     // parameters
     let mut params: Vec<(String, Ty)> = Vec::new();
